@@ -19,7 +19,7 @@ CHECKS = {
             "lookup, file open/read/merge/write/sync and registry update (C05.R1); no other function writes files or looks at the registry and no "
             "other process-wide state exists (C05.R2); re-export of a recorded type is a no-op by dominance of the `contains` guard (C05.R3); "
             "imports are accumulated in BTreeMap/BTreeSet and no hash- or visit-ordered sequence reaches the buffer (C05.R4); no panic-capable call "
-            "runs under the lock (C05.R5; merge() repaired by d83e876); writer/reader agreement of the import line, markers and DECLARATION_START (R6); declaration blocks never stored in keyed collections nor matched start-anchored (R7); both sort keys derived alike (R8); the blank-line rewrite of doc text is complete (R9); the path->names import table only accumulates and is a set (R10); merge() rewrites no text (R11); the registry key function path::absolute is pure and always cleaned (R12). Byte-for-byte confluence of the textual merge over all declaration texts and "
+            "runs under the lock (C05.R5; merge() repaired by d83e876); writer/reader agreement of the import line, markers and DECLARATION_START (R6); declaration blocks never stored in keyed collections nor matched start-anchored (R7); both sort keys derived alike (R8); the blank-line rewrite of doc text is complete (R9); the path->names import table only accumulates and is a set (R10); merge() rewrites no text (R11); the registry key function path::absolute is pure and always cleaned (R12); generate_decl() appends declarations free of empty lines and docs unmodified (R13; repaired by 9550283); only the writer queries the file system (R14). Byte-for-byte confluence of the textual merge over all declaration texts and "
             "orders is a statement about run-time strings and is NOT decided."),
     "C06": ("DESIGN.md section 3/C06",
             "interprocedural value-origin analysis and dominance on MIR",
@@ -33,13 +33,13 @@ CHECKS = {
             "(R2); ts wins in every merge and from_attrs passes the ts value as receiver (R3); serde parsing is feature-gated (R4, thorough: dead "
             "under --no-default-features); the unknown-key fallback always skips and never errors, and keys are read with parse_any (R5); no arm "
             "consumes `=` twice (R6); value forms serde accepts are accepted or recovered per key (R7; repaired by e6989d5); every "
-            "token-skipping loop tests the token it skips, before advancing (R8); no unjustified panic on the serde path (R9); neither parsed value is altered before merge (R3); the separator is never followed by an untested key read, so a trailing comma is accepted (R11; repaired by d7bba3a); container from_attrs merges serde on every Ok path (R3); all serde lists are folded (R12); delimited groups are read to the end (R13). Equality of bindings for all types under the two "
+            "token-skipping loop tests the token it skips, before advancing (R8); no unjustified panic on the serde path (R9); neither parsed value is altered before merge (R3); the separator is never followed by an untested key read, so a trailing comma is accepted (R11; repaired by d7bba3a); container from_attrs merges serde on every Ok path (R3); all serde lists are folded (R12); delimited groups are read to the end (R13); written values are recorded as written (R14). Equality of bindings for all types under the two "
             "spellings is NOT decided beyond these table/merge facts."),
     "C11": ("DESIGN.md section 3/C11",
             "who-may-call, call-graph edge and must-pass-through analysis on MIR",
             "Decides that only export_and_merge/export_to touch the file system and only at the path parameter (C11.R1), that the recursive walk "
             "exports the visited type, walks its dependencies through export_recursive, skips non-exportable types, stops at and returns the first "
-            "error (C11.R2), and that the written path derives from <T as TS>::output_path() of the same T behind its Some-check (C11.R3); the generated output_path() template (R4), the generated export test calling export_all() on the erased type (R5), that every recorded dependency is emitted into visit_dependencies() (R6), and that the derived visit_generics() visits and walks into every free parameter (R7). The "
+            "error (C11.R2), and that the written path derives from <T as TS>::output_path() of the same T behind its Some-check (C11.R3); the generated output_path() template (R4), the generated export test calling export_all() on the erased type (R5), that every recorded dependency is emitted into visit_dependencies() (R6), that the derived visit_generics() visits and walks into every free parameter (R7), type-argument discipline (R8), the assembly of the emitted impl (R9), and that every export request reaches the next stage or fails (R10). The "
             "directory-form/file-form string rule inside generated output_path() is NOT decided."),
     "C13": ("DESIGN.md section 3/C13",
             "iterator-provenance (static receiver types) and forward-flow analysis on MIR of both crates",
@@ -50,7 +50,7 @@ CHECKS = {
             "panic-site inventory, typestate (must-pass-through) and control-dependence rules on MIR plus syntax-tree decision tables",
             "Decides: every panic-capable call site of the proc-macro crate is discharged by a recognised guard or an exact justified entry (R1); "
             "every parsed attribute value is validated on every non-error path (R2); the 41 reference rejections are still present (R3); an unknown "
-            "ts key always errors (R4); errors become compile_error! (R5); impl headers strip defaults of every parameter kind (R7); the where-clause walker reaches type parameters behind every type constructor incl. macro groups and qualified paths (R8; repaired by 5225b7b); untyped `[#(#xs),*]` repetitions are emitted only where xs is non-empty (R9; repaired by 31ba1b7, 442a643). That every accepted expansion compiles is NOT decided beyond these clauses and the witnesses."),
+            "ts key always errors (R4); errors become compile_error! (R5); impl headers strip defaults of every parameter kind (R7); the where-clause walker reaches type parameters behind every type constructor incl. macro groups and qualified paths (R8; repaired by 5225b7b); untyped `[#(#xs),*]` repetitions are emitted only where xs is non-empty (R9; repaired by 31ba1b7, 442a643); the where-clause bounds every mentioned parameter (R11; e516a13); generated code names prelude items by path (R13; fe7df33). That every accepted expansion compiles is NOT decided beyond these clauses and the witnesses."),
     "C17": ("DESIGN.md section 3/C17",
             "error-discipline, dominance and panic-site analysis on MIR of the export path",
             "Decides: every fallible call on the export path is propagated (R1); registry insertions are dominated by successful write and sync "
@@ -72,7 +72,7 @@ CHECKS.update({
             "template guard recognition, impl inventory and dominance on MIR, enum representation matrix",
             "Decides: `?` can only be emitted under the IsOption bound or the IS_OPTION test, IsOption/IS_OPTION exist only for Option<T> and are not "
             "forwarded by wrapper macros (R1); every parsed field/variant attribute has its skip flag branched on and nothing is emitted on the "
-            "skip side (R2); tag literals / union arms per representation cell are exactly serde's (R3, shared with C01); the (struct optional_fields, field optional) table and the OptionInnerType selection by cells (R6); naming precedence and raw identifiers (R7, R8, shared); operands of ` & ` are atomic (R9; one known finding: the internally tagged payload). Required-ness beyond `?`, "
+            "skip side (R2); tag literals / union arms per representation cell are exactly serde's (R3, shared with C01); the (struct optional_fields, field optional) table and the OptionInnerType selection by cells (R6); naming precedence and raw identifiers (R7, R8, shared); operands of ` & ` are atomic (R9; repaired by 148e3d3). Required-ness beyond `?`, "
             "tuple lengths and leaf value ranges are NOT decided."),
     "C03": ("DESIGN.md section 3/C03",
             "template/dependency pairing on the syntax tree (path-insensitive and per decision cell), must-pass-through and origin analysis on MIR",
@@ -84,7 +84,7 @@ CHECKS.update({
             "dominance ordering on MIR, binding-origin rules and taint-to-quoted-sink enumeration on templates",
             "Decides: file layout order notice/imports/declaration/newline and docs/export/decl (R1); every property-name slot is bound directly to "
             "the quoting routine (R2); identifiers are un-raw'ed before becoming text (R3); every quoted interpolation without escaping is "
-            "escaped by a recognised routine (R4; repaired by df5d127); writer/reader agreement with merge() (R5); the object-merge simplification is anchored on the comma (R6; repaired by f4662c5); enclosing parentheses are stripped only after inspecting the interior (R7; repaired by f79dc8d); the empty name is quoted (R8; repaired by 05e5756); the text handed to the writer is the generated module on every path, `format` feature included (R9). Parsing all outputs under a TypeScript grammar is NOT decided."),
+            "escaped by a recognised routine (R4; repaired by df5d127); writer/reader agreement with merge() (R5); the object-merge simplification is anchored on the comma (R6; repaired by f4662c5); enclosing parentheses are stripped only after inspecting the interior (R7; repaired by f79dc8d); the empty name is quoted (R8; repaired by 05e5756); the text handed to the writer is the generated module on every path, `format` feature included (R9); escape_string covers quote, backslash and line breaks (R10; repaired by 9a44cad). Parsing all outputs under a TypeScript grammar is NOT decided."),
     "C07": ("DESIGN.md section 3/C07",
             "sibling agreement of generic-parameter emitters and template scope analysis on the syntax tree",
             "Decides: the seven emitters of the item's type parameters use the same source and treat `concrete` consistently (droppers vs replacers), "
@@ -107,7 +107,7 @@ CHECKS.update({
             "Decides: a field's raw type is read only through type_as (R1); every representation arm of format_variant uses the payload resolved "
             "from the variant attributes (R2); per (type, flatten, inline) cell the three field formatters emit literal/inline_flattened/inline/"
             "name and record none/append_from/append_from/push on the same variable (R3); decl_concrete shape and placeholder scope (R4); "
-            "reference/dependency pairing (R5); enum inline_flattened is always parenthesised (R6); named() composition table (R7); `_` in `as` types substituted at every depth (R8); object-merge anchoring and paren stripping (R9, R10 = C04.R6/R7); wrapper/shadow delegation of inline_flattened (R11 = C12.R1); operands of ` & ` are atomic (R12 = C02.R9; known finding). Denotational equality of bindings is NOT decided."),
+            "reference/dependency pairing (R5); enum inline_flattened is always parenthesised (R6); named() composition table (R7); `_` in `as` types substituted at every depth (R8); object-merge anchoring and paren stripping (R9, R10 = C04.R6/R7); wrapper/shadow delegation of inline_flattened (R11 = C12.R1); operands of ` & ` are atomic (R12 = C02.R9; repaired by 148e3d3); enum_def override order (R15). Denotational equality of bindings is NOT decided."),
     "C15": ("DESIGN.md section 3/C15",
             "field-level information-flow (role classification of every read of a docs field), sanitizer-on-path rule on MIR, dominance ordering",
             "Decides: doc text flows only into documentation sinks (R1); both member templates carry docs in the first slot and docs precede "
